@@ -51,6 +51,10 @@ def h_kw(x, y=2):
     return x * 3 - y
 
 
+def h_deep(c):
+    return Sum(SelectMany(c.jets, lambda r: Select(r.trks, lambda t: t.pt + c.met)))
+
+
 def h_d3(x, y=2, z=7):
     return x * 100 + (y * 10 + z)
 '''
